@@ -58,10 +58,10 @@ impl Prop for C15 {
         "C15"
     }
     fn rule(&self) -> String {
-        "source graphs from C01 histories (all 96 specs, node attributes, duplicate policies) and constructed graphs of all 8 kinds; S = generated sub-multiset of the graph's names plus an absent name; w in {NaN, +0, -0, inf, subnormal, dyadic}. Expected results are computed from the source's node list and edge list: induced subgraph (order, attributes, all parallel edges), reverse (every edge flipped, per-pair order kept, twice = identity, WrongMethod when undirected), set_all_edge_weights (every weight bit-equal to w), to_single_edges (one edge per pair with the group's sum, multi_edges = false, WrongMethod on single-edge graphs); each result must have the expected specs, pass the full C02 coherence check and the C03 traversal-index check, and the source's fingerprint must be unchanged. Exhaustive block: all histories of length <= 3 with S = {a}. Non-trivial = S cuts >= 1 edge and keeps >= 1, or a parallel group of size >= 2 is collapsed, or an asymmetric edge is reversed; distinct = distinct serialised case.".into()
+        "source graphs from C01 histories (all 96 specs, node attributes, duplicate policies) and constructed graphs of all 8 kinds; S = generated sub-multiset of the graph's names plus an absent name; w in {NaN, +0, -0, inf, subnormal, dyadic}. Expected results are computed from the source's node list and edge list: induced subgraph (order, attributes, all parallel edges), reverse (every edge flipped, per-pair order kept, twice = identity, WrongMethod when undirected), set_all_edge_weights (every weight bit-equal to w), to_single_edges (one edge per pair with the group's sum, multi_edges = false, WrongMethod on single-edge graphs); each result must have the expected specs, pass the full C02 coherence check and the C03 traversal-index check, and the source's fingerprint must be unchanged. Exhaustive block: all histories of length <= 3 with S = {a}. Non-trivial = S cuts >= 1 edge and keeps >= 1, or a parallel group of size >= 2 is collapsed, or an asymmetric edge is reversed; distinct = distinct serialised case. One source graph in ~600 is a tiny multigraph with a pair carrying a round number (2..8192: powers of two, powers of ten, their multiples and neighbours) of parallel edges; edge attributes (a unique tag on two edges in three) must survive subgraph, set_all_edge_weights and a double reverse.".into()
     }
     fn assumptions(&self) -> Vec<String> {
-        vec!["edge attributes are not exercised (None everywhere)".into(), "group sums are compared bit-exactly; weights are dyadic so the order of summation does not matter, NaN if any member is unweighted".into()]
+        vec!["two edges in three carry a unique i32 attribute; subgraph, set_all_edge_weights and double reverse must keep it, to_single_edges (documented to lose attributes) and single reverse are not checked for it".into(), "group sums are compared bit-exactly; weights are dyadic so the order of summation does not matter, NaN if any member is unweighted".into()]
     }
     fn enumerate(&self, _tier: Tier) -> Vec<DerivCase> {
         gen::enumerate_histories(1).into_iter().map(|h| DerivCase { src: AnyGraph::Hist(h), subset: vec![1, 0], w: 4 }).collect()
@@ -109,7 +109,10 @@ impl Prop for C15 {
                     out.fail("reverse/kind_guard/undirected_accepted", "Ok on an undirected graph");
                 } else {
                     let mut want = m.clone();
-                    want.edges = m.edges.iter().map(|e| MEdge { u: e.v.clone(), v: e.u.clone(), w: e.w }).collect();
+                    want.edges = m.edges.iter().map(|e| MEdge { u: e.v.clone(), v: e.u.clone(), w: e.w, a: e.a }).collect();
+                    // the statement speaks of nodes, weights and parallel edges only; that the
+                    // attributes survive is checked through "applying it twice restores the graph"
+                    want.ignore_edge_attrs = true;
                     check_derived("reverse", &rev, &want, &mut out);
                     if m.edges.iter().any(|e| e.u != e.v && m.between(&e.v, &e.u).is_empty()) {
                         nontrivial = true;
@@ -147,6 +150,8 @@ impl Prop for C15 {
                     out.fail("to_single_edges/kind_guard/single_edge_graph_accepted", "Ok on a single-edge graph");
                 } else {
                     let mut want = Model::new(SpecBits { multi: false, ..m.spec });
+                    // documented: "Edge attributes are lost"; the statement only fixes the weight
+                    want.ignore_edge_attrs = true;
                     want.nodes = m.nodes.clone();
                     let mut done: Vec<(String, String)> = vec![];
                     for e in &m.edges {
@@ -160,7 +165,7 @@ impl Prop for C15 {
                             out.class("collapse_parallel_group");
                         }
                         let sum: f64 = group.iter().map(|x| x.w).sum();
-                        want.edges.push(MEdge { u: e.u.clone(), v: e.v.clone(), w: sum });
+                        want.edges.push(MEdge { u: e.u.clone(), v: e.v.clone(), w: sum, a: None });
                     }
                     check_derived("to_single_edges", &single, &want, &mut out);
                 }
